@@ -296,9 +296,11 @@ def jacobi_der_seq(ns, alpha, beta, x):
 def _initialize_alphas(s, x, alphas, j=0):
     # j = derivative order
     if alphas is None:
-        if hasattr(x, 'dtype'):
+        if hasattr(x, 'dtype') and x.dtype.kind in 'fc':
             dtype = x.dtype
         else:
+            # a Python scalar, or integer / boolean coordinates (the ends and
+            # the middle of the interval): the sums are not whole numbers
             dtype = config.precision
         if hasattr(x, 'shape'):
             shape = (len(s), *x.shape)
